@@ -112,10 +112,19 @@ def gen_field(d, schema, desc, parent, fname, depth, used_keys, opts):
         keys = set()
         if hasattr(named, "fields"):
             names = list(named.fields)
-            for sub in d.sample(names, d.int(1, min(3, len(names)))):
+            picked = d.sample(names, d.int(1, min(3, len(names))))
+            # the same field a second time under another response key (fields built by a METHOD call - arguments or an
+            # object type - are fresh objects each time; class-level attribute objects are left alone)
+            again = [n for n in picked if named.fields[n].args or
+                     (is_composite_type(get_named_type(named.fields[n].type)) and not isinstance(get_named_type(named.fields[n].type), GraphQLUnionType))]
+            if again and d.bool(0.3):
+                picked = picked + [d.choice(again)]
+            for sub in picked:
                 sn = gen_field(d, schema, desc, named, sub, depth + 1, keys, opts)
                 if sn is not None:
                     node["sub"].append(sn)
+            if len({x["name"] for x in node["sub"]}) < len(node["sub"]):
+                d.tag("builder.same_field_twice_nested")
         if is_abstract_type(named) and d.bool(0.7):
             for t in d.sample(sorted(schema.get_possible_types(named), key=lambda x: x.name), d.int(1, 2)):
                 subs = []
